@@ -20,7 +20,7 @@ from sim.world import Sim
 
 PROPERTY = "C10"
 LEVEL = "exploration"
-TIERS = {"quick": 6000, "thorough": 400000}
+TIERS = {"quick": 12000, "thorough": 1500000}
 CHUNK = 100
 RULE = ("each run draws capacity 1-12, a refill rate from {0.005..50}/s, 1-5 peer addresses and an "
         "arrival history of 5-300 events on a time grid mixing bursts, gaps near 1/refill_rate and "
